@@ -664,6 +664,34 @@ class Evaluator:
                                 self.bind(t, val, st2, s)
                         yield st2, None
                 return
+        if isinstance(s, (ast.Assign, ast.Return, ast.Expr, ast.AugAssign)) and getattr(s, "value", None) is not None and not self.new_helper(s.value, st):
+            # a branching helper the rules do not know, called somewhere INSIDE the statement's expression: its paths are run first, the
+            # call is replaced by a temporary holding the returned value, and the statement continues on each path
+            inner = None
+            todo = [s.value]
+            while todo and inner is None:
+                n_ = todo.pop(0)
+                if isinstance(n_, (ast.Lambda, ast.ListComp, ast.SetComp, ast.DictComp, ast.GeneratorExp, ast.IfExp)):
+                    continue
+                if isinstance(n_, ast.Call) and n_ is not s.value:
+                    g_ = self.new_helper(n_, st)
+                    if g_ is not None and any(isinstance(x, (ast.If, ast.For, ast.While, ast.Try, ast.With, ast.IfExp, ast.Raise)) for b in g_.node.body for x in ast.walk(b)):
+                        inner = (n_, g_)
+                        break
+                todo.extend(ast.iter_child_nodes(n_))
+            if inner is not None:
+                call_node, g_ = inner
+                self._tmp = getattr(self, "_tmp", 0) + 1
+                tmp = "__inl%d" % self._tmp
+                for st2, val, ex in self.inline(g_, call_node, st):
+                    if ex is not None:
+                        yield st2, ex
+                        continue
+                    st2.env[tmp] = val
+                    one = copy.copy(s)
+                    one.value = _replace_node(s.value, call_node, ast.copy_location(ast.Name(id=tmp, ctx=ast.Load()), call_node))
+                    yield from self.stmt(one, st2)
+                return
         if isinstance(s, (ast.Assign, ast.Return, ast.Expr, ast.AugAssign)) and getattr(s, "value", None) is not None:
             # a conditional expression anywhere in the statement (outside lambdas / comprehensions) whose arms make calls splits the path like
             # an if statement: `f(a if c else g(a))` is `if c: f(a) else: f(g(a))`; calls of the arm that is not taken are not recorded
